@@ -376,6 +376,186 @@ def _unroll_sweep_comprehension(fn: ast.AST) -> ast.AST:
     return fn
 
 
+def _simple_operand(e: ast.AST) -> bool:
+    """Evaluating *e* has no effect and cannot be affected by an assignment hoisted over it (a constant, a name, a dotted name)."""
+    return isinstance(e, ast.Constant) or dotted_name(e) is not None
+
+
+def _unwalrus(fn: ast.AST) -> None:
+    """`if f((k := E)): ..` is `k = E; if f(k): ..` (in place, on a working copy): an assignment expression that is
+    evaluated unconditionally and before anything else of its statement that has an effect is bound by a statement of
+    its own, so the value flow sees one spelling.  Only simple statements and `if` tests (not `while`: re-evaluated;
+    not behind `and` / `or` / a conditional expression / inside a comprehension or lambda: conditional)."""
+
+    def first_walrus(e: ast.AST, before: List[ast.AST]) -> Optional[ast.NamedExpr]:
+        """The assignment expression of *e* that is evaluated before anything but simple operands (collected in *before*)."""
+        if isinstance(e, ast.NamedExpr):
+            if isinstance(e.target, ast.Name) and not any(isinstance(x, ast.NamedExpr) for x in ast.walk(e.value)):
+                return e
+            return None
+        if isinstance(e, ast.UnaryOp):
+            kids = [e.operand]
+        elif isinstance(e, ast.Compare):
+            kids = [e.left] + list(e.comparators)
+        elif isinstance(e, ast.BinOp):
+            kids = [e.left, e.right]
+        elif isinstance(e, ast.BoolOp):
+            kids = [e.values[0]]
+        elif isinstance(e, ast.IfExp):
+            kids = [e.test]
+        elif isinstance(e, ast.Attribute):
+            kids = [e.value]
+        elif isinstance(e, ast.Subscript):
+            kids = [e.value, e.slice]
+        elif isinstance(e, ast.Call):
+            kids = [e.func] + list(e.args) + [k.value for k in e.keywords]
+        elif isinstance(e, (ast.Tuple, ast.List)):
+            kids = list(e.elts)
+        else:
+            return None
+        for k in kids:
+            if any(isinstance(x, ast.NamedExpr) for x in ast.walk(k)):
+                return first_walrus(k, before)
+            if not _simple_operand(k):
+                return None
+            before.append(k)
+        return None
+
+    changed = True
+    while changed:
+        changed = False
+        for block in list(_stmt_blocks(fn)):
+            for i, st in enumerate(block):
+                if isinstance(st, ast.If):
+                    host = st.test
+                elif isinstance(st, (ast.Assign, ast.AnnAssign, ast.Expr, ast.Return)) and getattr(st, "value", None) is not None:
+                    host = st.value
+                else:
+                    continue
+                if not any(isinstance(x, ast.NamedExpr) for x in ast.walk(host)):
+                    continue
+                before: List[ast.AST] = []
+                w = first_walrus(host, before)
+                if w is None or any(isinstance(x, ast.Name) and x.id == w.target.id for b in before for x in ast.walk(b)):
+                    continue
+                new = ast.Assign(targets=[ast.Name(id=w.target.id, ctx=ast.Store())], value=w.value)
+                for y in [new] + new.targets:
+                    ast.copy_location(y, st)
+                ref = ast.copy_location(ast.Name(id=w.target.id, ctx=ast.Load()), w)
+
+                class T(ast.NodeTransformer):
+                    def visit_NamedExpr(self, n):
+                        return ref if n is w else self.generic_visit(n)
+
+                if isinstance(st, ast.If):
+                    st.test = T().visit(st.test)
+                else:
+                    st.value = T().visit(st.value)
+                block.insert(i, new)
+                changed = True
+                break
+            if changed:
+                break
+    ast.fix_missing_locations(fn)
+
+
+def _sink_block_temps(fn: ast.AST) -> None:
+    """`t = E; .. t .. t ..` (in one block, t bound nowhere else and read nowhere else, E pure, nothing E reads re-bound or
+    modified in the statements that follow) is `.. E .. E ..` (in place, on a working copy).  The normaliser's copy
+    propagation refuses such a temporary when one of the names E reads is also the target of a comprehension or of
+    another loop somewhere in the function (`seq_len = len(seq)` in a loop over `seq`, with `[len(seq) for seq in ..]`
+    elsewhere); inside the one block the value cannot change, so the temporary is named sub-expression and nothing more."""
+    from ..normal import _purity
+
+    params = {a.arg for f in ast.walk(fn) if isinstance(f, FuncNode + (ast.Lambda,)) for a in f.args.posonlyargs + f.args.args + f.args.kwonlyargs + ([f.args.vararg] if f.args.vararg else []) + ([f.args.kwarg] if f.args.kwarg else [])}
+    _attach_parents(fn)
+    for _round in range(40):
+        stores: Dict[str, int] = {}
+        loads: Dict[str, List[ast.Name]] = {}
+        for x in ast.walk(fn):
+            if isinstance(x, ast.Name):
+                if isinstance(x.ctx, ast.Load):
+                    loads.setdefault(x.id, []).append(x)
+                else:
+                    stores[x.id] = stores.get(x.id, 0) + 1
+            elif isinstance(x, ast.ExceptHandler) and x.name:
+                stores[x.name] = stores.get(x.name, 0) + 1
+            elif isinstance(x, (ast.Global, ast.Nonlocal)):
+                for nm in x.names:
+                    stores[nm] = stores.get(nm, 0) + 2
+        done = False
+        for block in list(_stmt_blocks(fn)):
+            for i, st in enumerate(block):
+                if isinstance(st, ast.Assign) and len(st.targets) == 1 and isinstance(st.targets[0], ast.Name):
+                    t, rhs = st.targets[0].id, st.value
+                elif isinstance(st, ast.AnnAssign) and isinstance(st.target, ast.Name) and st.value is not None:
+                    t, rhs = st.target.id, st.value
+                else:
+                    continue
+                uses = loads.get(t, [])
+                if t in params or stores.get(t, 0) != 1 or not uses:
+                    continue
+                level = _purity_c(rhs, _purity)
+                if level is None or (level == "fresh" and len(uses) != 1) or any(isinstance(x, (ast.NamedExpr, ast.Yield, ast.YieldFrom, ast.Await)) for x in ast.walk(rhs)):
+                    continue
+                later = block[i + 1:]
+                later_ids = {id(x) for s in later for x in ast.walk(s)}
+                if not all(id(u) in later_ids for u in uses):
+                    continue
+                free = {x.id for x in ast.walk(rhs) if isinstance(x, ast.Name)}
+                if t in free:
+                    continue
+                rebound = {x.id for s in later for x in ast.walk(s) if isinstance(x, ast.Name) and not isinstance(x.ctx, ast.Load)}
+                rebound |= {a_ for s in later for f in ast.walk(s) if isinstance(f, FuncNode + (ast.Lambda,)) for a_ in ({p.arg for p in f.args.posonlyargs + f.args.args + f.args.kwonlyargs} | ({f.args.vararg.arg} if f.args.vararg else set()) | ({f.args.kwarg.arg} if f.args.kwarg else set()))}
+                if free & rebound:
+                    continue
+                if level != "safe" and any(r in free for s in later for _s, r in mutation_sites(s, free, include_nested=True)):
+                    continue
+                if level != "safe" and any(isinstance(a, FuncNode + (ast.Lambda,)) for u in uses for a in _ancestors_in(u, fn)):
+                    continue  # a closure reads the variable when it runs, not when it is made
+                if level == "fresh" and any(isinstance(a, (ast.For, ast.While, ast.ListComp, ast.SetComp, ast.DictComp, ast.GeneratorExp, ast.Lambda) + FuncNode) and id(a) in later_ids for u in uses for a in _ancestors_in(u, fn)):
+                    continue
+
+                class S(ast.NodeTransformer):
+                    def visit_Name(self, n):
+                        if isinstance(n.ctx, ast.Load) and n.id == t:
+                            return ast.copy_location(clone(rhs), n)
+                        return n
+
+                for j in range(i + 1, len(block)):
+                    block[j] = S().visit(block[j])
+                del block[i]
+                done = True
+                break
+            if done:
+                break
+        if not done:
+            break
+        _attach_parents(fn)
+    ast.fix_missing_locations(fn)
+
+
+def _purity_c(e: ast.AST, purity) -> Optional[str]:
+    """normal._purity, plus: a list / set / dict comprehension whose parts are pure builds a fresh object"""
+    if isinstance(e, (ast.ListComp, ast.SetComp, ast.DictComp)):
+        parts = ([e.key, e.value] if isinstance(e, ast.DictComp) else [e.elt]) + [x for g_ in e.generators for x in [g_.iter] + list(g_.ifs)]
+        if any(g_.is_async for g_ in e.generators) or not all(isinstance(x, (ast.Name, ast.Tuple, ast.List, ast.expr_context)) for g_ in e.generators for x in ast.walk(g_.target)):
+            return None
+        return "fresh" if all(_purity_c(x, purity) is not None for x in parts) else None
+    if isinstance(e, ast.Call) and isinstance(e.func, ast.Name) and e.func.id in ("range", "enumerate", "zip", "reversed") and not e.keywords and not any(isinstance(a, ast.Starred) for a in e.args):
+        return "fresh" if all(_purity_c(a, purity) is not None for a in e.args) else None  # a one-shot iterator: single use only
+    return purity(e)
+
+
+def _ancestors_in(node: ast.AST, root: ast.AST) -> List[ast.AST]:
+    out = []
+    for a in ancestors(node):
+        if a is root:
+            break
+        out.append(a)
+    return out
+
+
 class Flow:
     """Working copy of a (normal-form) function: one spelling for the ways a mapping is assembled / traversed
     (_canon_records), calls with sorted keywords, `yield from <genexp>` as a loop,
@@ -387,7 +567,10 @@ class Flow:
     independent statements do not matter."""
 
     def __init__(self, nf: ast.AST, post=None):
-        self.fn = _canon_records(clone(nf))
+        work = clone(nf)
+        _unwalrus(work)
+        _sink_block_temps(work)
+        self.fn = _canon_records(work)
         _unloop_yield_from(self.fn)
         _sort_keywords(self.fn)
         ast.fix_missing_locations(self.fn)
@@ -1863,6 +2046,285 @@ def _expression_scope(repo: Repo, R: Report) -> None:
 
 
 # ---------------------------------------------------------------------------------------------------------
+# D6 (the other side of `spec.lo`, `spec.values`, `spec.key`): the spec classes hold what they were given
+# ---------------------------------------------------------------------------------------------------------
+# C03-D6-materialisation-arguments decides that linspace / logspace / list() receive the spec's fields in their roles.
+# That is the documented sequence only if a field still holds the value the spec was written with (the YAML value,
+# the constructor argument): the module boundary between the spec classes and the materialisation is "field F of a
+# spec is the F it was constructed with".  A constructor / __post_init__ / method that re-writes a field (swaps lo
+# and hi, sorts values, rounds steps, normalises a key) changes the element sequence of every sweep that uses such a
+# spec although the materialisation code is untouched.
+
+_SPEC_HOOKS = ("__setattr__", "__getattribute__", "__getattr__", "__new__")
+
+
+def _field_stores(fn: ast.AST, fields: Set[str]) -> List[Tuple[ast.AST, str, ast.AST, Optional[ast.AST]]]:
+    """(statement, field, receiver, stored value or None) for every write of an attribute named like one of *fields*
+    in *fn*: `R.F = v` (also as part of a tuple assignment, augmented, annotated, deleted), `setattr(R, 'F', v)`,
+    `object.__setattr__(R, 'F', v)`, `R.__dict__['F'] = v`, `R.__dict__.update(..)` / `vars(R).update(..)`."""
+    out: List[Tuple[ast.AST, str, ast.AST, Optional[ast.AST]]] = []
+    for n in ast.walk(fn):
+        if isinstance(n, ast.Attribute) and isinstance(n.ctx, (ast.Store, ast.Del)) and n.attr in fields:
+            st = stmt_of(n)
+            v = st.value if isinstance(st, ast.Assign) and any(t is n for t in st.targets) else st.value if isinstance(st, ast.AnnAssign) and st.target is n else None
+            out.append((st, n.attr, n.value, v))
+        elif isinstance(n, ast.Call):
+            m = kany(["setattr(_R_, _F_, _V_)", "object.__setattr__(_R_, _F_, _V_)", "_R_.__setattr__(_F_, _V_)"], n)
+            if m and isinstance(m["_F_"], ast.Constant) and m["_F_"].value in fields:
+                out.append((stmt_of(n), m["_F_"].value, m["_R_"], m["_V_"]))
+            elif m and not isinstance(m["_F_"], ast.Constant):
+                out += [(stmt_of(n), f, m["_R_"], None) for f in sorted(fields)]
+            m = kany(["_R_.__dict__.update(_ANY_)", "vars(_R_).update(_ANY_)", "_R_.__dict__.update(**_ANY_)", "vars(_R_).update(**_ANY_)"], n)
+            if m or (isinstance(n.func, ast.Attribute) and n.func.attr == "update" and any(isinstance(x, ast.Attribute) and x.attr == "__dict__" for x in ast.walk(n.func.value))):
+                recv = m["_R_"] if m else n.func.value
+                out += [(stmt_of(n), f, recv, None) for f in sorted(fields)]
+        elif isinstance(n, ast.Subscript) and isinstance(n.ctx, (ast.Store, ast.Del)) and isinstance(n.slice, ast.Constant) and n.slice.value in fields:
+            m = kany(["_R_.__dict__[_ANY_]", "vars(_R_)[_ANY_]"], ast.Subscript(value=n.value, slice=n.slice, ctx=ast.Load()))
+            if m:
+                out.append((stmt_of(n), n.slice.value, m["_R_"], None))
+    return out
+
+
+def _spec_fields(repo: Repo, R: Report, readers: List[Tuple[str, str, "Flow"]], is_spec, kinds_of) -> None:
+    """*readers*: (file, function, Flow) of the functions that read the specs (materialisation) or build them (YAML
+    conversion); *is_spec(e)*: expression e denotes the variable's spec in the materialisation; *kinds_of*: the class
+    expressions the materialisation dispatches on."""
+    rule = R.rule("C03-D6-spec-fields-as-given", "a field of a variable spec (lo, hi, steps, scale, endpoint of a range; values of an explicit sequence; key of a from_context variable) that the materialisation reads holds the value the spec was constructed with: the spec class stores each constructor argument unchanged under its own name and nothing (constructor, __post_init__, another method, the materialisation or the YAML conversion) re-writes it afterwards", 5)
+    rel_m, qn_m, FM = readers[0]
+    mod = repo.module(rel_m)
+    raw = repo.func(rel_m, qn_m)
+    read = {x.attr for x in ast.walk(FM.fn) if isinstance(x, ast.Attribute) and isinstance(x.ctx, ast.Load) and is_spec(x.value)}
+    read |= {m_["_F_"].value for c in ast.walk(FM.fn) if isinstance(c, ast.Call) for m_ in [kany(["getattr(_S_, _F_)", "getattr(_S_, _F_, _ANY_)"], c)]
+             if m_ and is_spec(m_["_S_"]) and isinstance(m_["_F_"], ast.Constant) and isinstance(m_["_F_"].value, str)}
+    if not read:
+        raise AnalysisError(f"{qn_m}: no field of a variable spec is read (the materialisation is not the analysed one)")
+    classes: Dict[int, Tuple[object, ast.ClassDef]] = {}
+    for k in kinds_of:
+        try:
+            hit = repo.resolve_name(mod, k, raw)
+        except Exception:
+            hit = None
+        if hit is not None and isinstance(hit[1], ast.ClassDef):
+            classes[id(hit[1])] = hit
+    if len(classes) < 3:
+        raise AnalysisError(f"{qn_m}: {len(classes)} variable-spec classes resolved from the isinstance dispatch (3 confirmed by reading)")
+    declared_somewhere: Set[str] = set()
+    for cm, cd in classes.values():
+        repo.consulted.add(cm.rel)
+        chain = repo.mro(cm, cd)
+        meths: Dict[str, Tuple[object, ast.AST]] = {}
+        body_names: Set[str] = set()
+        for m_, c_ in chain:
+            for st in c_.body:
+                if isinstance(st, FuncNode):
+                    meths.setdefault(st.name, (m_, st))
+                    body_names.add(st.name)
+        hooks = [h for h in _SPEC_HOOKS if h in meths]
+        if hooks:
+            raise AnalysisError(f"{cd.name}: defines {hooks} (attribute access of a variable spec is intercepted: shape not analysed)")
+        decos = [d for _m, c_ in chain for d in c_.decorator_list]
+        is_dc = any((dotted_name(d.func if isinstance(d, ast.Call) else d) or "").split(".")[-1] == "dataclass" for d in decos)
+        if any(isinstance(d, ast.Call) and any(k_.arg == "init" and not (isinstance(k_.value, ast.Constant) and k_.value.value is True) for k_ in d.keywords) for d in decos):
+            raise AnalysisError(f"{cd.name}: dataclass(init=...) (construction of a variable spec: shape not analysed)")
+        init = meths.get("__init__")
+        ann: Dict[str, ast.AST] = {}
+        for _m, c_ in reversed(chain):
+            for st in c_.body:
+                if isinstance(st, ast.AnnAssign) and isinstance(st.target, ast.Name) and "ClassVar" not in _u(st.annotation):
+                    ann[st.target.id] = st
+        fields: Set[str]
+        if init is not None:
+            self_p = init[1].args.args[0].arg if init[1].args.args else "self"
+            fields = {f for _st, f, recv, _v in _field_stores(init[1], read) if isinstance(recv, ast.Name) and recv.id == self_p}
+        elif is_dc:
+            fields = set(ann)
+        else:
+            fields = set()
+        fields &= read
+        if not fields:
+            raise AnalysisError(f"{cd.name}: none of the fields the materialisation reads ({sorted(read)}) is declared by the class (dataclass field / store in __init__)")
+        declared_somewhere |= fields
+        shadow = sorted(f for f in fields if f in body_names)
+        if shadow:
+            raise AnalysisError(f"{cd.name}: {shadow} is both a field and a method / property of the class (shape not analysed)")
+        qn_c = cd.name
+        # (a) construction: every field is the like-named constructor argument, unchanged
+        ok_init: Set[int] = set()
+        if init is not None:
+            im, ifn = init
+            FI = Flow(normalize(repo, im, ifn, copyprop="all"))
+            a_ = FI.fn.args
+            pnames = [p.arg for p in a_.posonlyargs + a_.args + a_.kwonlyargs][1:]
+            for f in sorted(fields):
+                sts = [(st, v) for st, f2, recv, v in _field_stores(FI.fn, {f}) if isinstance(recv, ast.Name) and recv.id == self_p and any(st is x for x in walk_no_nested(FI.fn))]
+                good = []
+                for st, v in sts:
+                    xs = FI.expand(v, FI.nid(st)) if v is not None and isinstance(st, (ast.Assign, ast.AnnAssign)) else []
+                    if xs and all(isinstance(x, ast.Name) and x.id in pnames and (x.id == f or len(fields) == 1) for x in xs) and all(FI.rdefs(x.id, FI.nid(st)) == ([], True) for x in xs):
+                        good.append(st)
+                bad = [st for st, _v in sts if st not in good]
+                ids = {FI.nid(st) for st in good}
+                skipped = FI.g.ret_exit in _reach(FI.g, [FI.g.entry], ids)
+                ok_init |= {id(st) for st in good}
+                R.check(not bad and bool(good) and not skipped, rule, cm.rel, f"{qn_c}.__init__", f"self.{f} = {f} (the constructor argument as given)",
+                        (f"`{_u(bad[0])[:100]}`: " if bad else "") + f"field `{f}` of a {qn_c} does not hold the value the spec was written with: the sequence swept for such a variable (its order, its end points, its <var>_values) is not the documented one",
+                        getattr(bad[0] if bad else ifn, "lineno", cd.lineno))
+        else:
+            for f in sorted(fields):
+                R.ok(rule, cm.rel, qn_c, f"{f}: dataclass field (stored by the generated __init__ as given)")
+        # (b) nothing re-writes a field afterwards
+        for mname, (mm, mf) in sorted(meths.items()):
+            if mname == "__init__":
+                continue
+            for st, f, recv, _v in _field_stores(mf, fields):
+                R.violation(rule, mm.rel, f"{qn_c}.{mname}", _u(st)[:120], f"`{_u(st)[:100]}` re-writes field `{f}` of a {qn_c} after construction: the materialisation reads spec.{f} as the value the spec was written with (e.g. a descending range lo > hi, a sequence in its given order), so the swept sequence, its order / end points and the published <var>_values differ from the documented ones", getattr(st, "lineno", cd.lineno))
+            R.ok(rule, mm.rel, f"{qn_c}.{mname}", "no field of the spec is re-written")
+        if "__post_init__" not in meths and init is None:
+            R.ok(rule, cm.rel, qn_c, "no __post_init__")
+    missing = sorted(read - declared_somewhere)
+    if missing:
+        raise AnalysisError(f"{qn_m}: reads spec field(s) {missing} that no variable-spec class declares (property / computed attribute: shape not analysed)")
+    # (c) the functions that handle specs do not re-write them either
+    for rel, qn, FX in readers:
+        for st, f, recv, _v in _field_stores(FX.fn, declared_somewhere):
+            if any(st is x for x in walk_no_nested(FX.fn)):
+                R.violation(rule, rel, qn, _u(st)[:120], f"`{_u(st)[:100]}` re-writes field `{f}` of a variable spec before it is materialised: the swept sequence is not the one the spec declares", getattr(st, "lineno", 0))
+        R.ok(rule, rel, qn, "specs are read, not re-written")
+
+
+# ---------------------------------------------------------------------------------------------------------
+# D4 (the published list is the swept list): nobody modifies a variable's sequence in place on the way
+# ---------------------------------------------------------------------------------------------------------
+# `_materialize_sequences` stores one list object under sequences[var] and created['<var>_values'] (C03-D4-publication
+# checks that).  What is published after the loop is therefore the materialised sequence only if everything that handles
+# the lists in between - step enumeration with its broadcast cycling, the generated bodies, the publication helper -
+# reads them and never extends / sorts / overwrites them in place.  Decided with a small *nesting level* analysis:
+# level 2 = a collection whose items are the variables' lists (the mapping, its values(), a shallow copy, a dict built
+# from them), level 1 = one variable's list itself, 0 = anything else (a copy of a list holds scalars: level 0).
+
+_SHALLOW = {"list", "tuple", "dict", "sorted", "reversed", "iter", "set", "frozenset", "OrderedDict", "collections.OrderedDict"}
+_LIST_MUTATORS = {"append", "extend", "insert", "pop", "remove", "clear", "sort", "reverse", "__setitem__", "__delitem__", "__iadd__", "__imul__"}
+
+
+def _list_mutations(fn: ast.AST, seeds) -> List[Tuple[ast.AST, str]]:
+    """Statements of *fn* (nested comprehensions included, nested defs excluded) that modify in place an object of
+    level 1.  *seeds(e)* gives the level of an expression known from outside (a parameter, a call), or None."""
+    L: Dict[str, int] = {}
+
+    def level(e: Optional[ast.AST], env: Dict[str, int]) -> int:
+        if e is None:
+            return 0
+        s = seeds(e)
+        if s is not None:
+            return s
+        if isinstance(e, ast.Name):
+            return env.get(e.id, L.get(e.id, 0))
+        if isinstance(e, ast.NamedExpr):
+            return level(e.value, env)
+        if isinstance(e, ast.Starred):
+            return level(e.value, env)
+        if isinstance(e, ast.Subscript):
+            if isinstance(e.slice, ast.Slice):
+                n = level(e.value, env)
+                return n if n >= 2 else 0  # a slice of a list is a copy
+            return max(level(e.value, env) - 1, 0)
+        if isinstance(e, ast.IfExp):
+            return max(level(e.body, env), level(e.orelse, env))
+        if isinstance(e, ast.BoolOp):
+            return max(level(v, env) for v in e.values)
+        if isinstance(e, (ast.List, ast.Tuple, ast.Set)):
+            n = max([level(x, env) - (1 if isinstance(x, ast.Starred) else 0) for x in e.elts] or [0])
+            return n + 1 if n > 0 else 0
+        if isinstance(e, ast.Dict):
+            n = max([level(v, env) - (1 if k is None else 0) for k, v in zip(e.keys, e.values)] or [0])
+            return n + 1 if n > 0 else 0
+        if isinstance(e, (ast.ListComp, ast.SetComp, ast.GeneratorExp, ast.DictComp)):
+            env2 = dict(env)
+            for g_ in e.generators:
+                bind(g_.target, g_.iter, env2, env2)
+            n = level(e.value if isinstance(e, ast.DictComp) else e.elt, env2)
+            return n + 1 if n > 0 else 0
+        if isinstance(e, ast.Call):
+            fnm = dotted_name(e.func) or ""
+            if isinstance(e.func, ast.Attribute) and e.func.attr in ("values", "copy", "items") and not e.args:
+                n = level(e.func.value, env)
+                return n if n >= 2 else 0
+            if isinstance(e.func, ast.Attribute) and e.func.attr in ("get", "pop", "setdefault"):
+                return max(level(e.func.value, env) - 1, max([level(a, env) for a in e.args[1:]] or [0]), 0)
+            if fnm in _SHALLOW and len(e.args) == 1:
+                n = level(e.args[0], env)
+                return n if n >= 2 else 0
+            if fnm in ("zip", "enumerate", "itertools.chain", "chain", "map", "filter", "next", "itertools.product", "product", "itertools.zip_longest", "zip_longest", "itertools.cycle", "cycle", "itertools.islice", "islice"):
+                return max([level(a, env) for a in e.args] or [0])
+            return 0
+        return 0
+
+    def bind(target: ast.AST, it: ast.AST, env_read: Dict[str, int], env_write: Dict[str, int]) -> bool:
+        """targets of a loop over *it*; True when something was raised"""
+        n = level(it, env_read)
+        items = isinstance(it, ast.Call) and isinstance(it.func, ast.Attribute) and it.func.attr == "items"
+        changed = False
+        if items and isinstance(target, (ast.Tuple, ast.List)) and len(target.elts) == 2:
+            pairs = [(target.elts[0], 0), (target.elts[1], max(n - 1, 0))]
+        else:
+            pairs = [(target, max(n - 1, 0))]
+        for t, lv in pairs:
+            for x in ast.walk(t):
+                if isinstance(x, ast.Name) and lv > env_write.get(x.id, 0):
+                    env_write[x.id] = lv
+                    changed = True
+        return changed
+
+    nodes = list(walk_no_nested(fn))
+    for _round in range(12):
+        changed = False
+        for n in nodes:
+            if isinstance(n, (ast.Assign, ast.AnnAssign)) and getattr(n, "value", None) is not None:
+                lv = level(n.value, {})
+                for t in (n.targets if isinstance(n, ast.Assign) else [n.target]):
+                    if isinstance(t, ast.Name):
+                        if lv > L.get(t.id, 0):
+                            L[t.id], changed = lv, True
+                    elif isinstance(t, (ast.Tuple, ast.List)):
+                        vals = n.value.elts if isinstance(n.value, (ast.Tuple, ast.List)) and len(n.value.elts) == len(t.elts) else None
+                        for i, x in enumerate(t.elts):
+                            l2 = level(vals[i], {}) if vals is not None else max(lv - 1, 0)
+                            for y in ast.walk(x):
+                                if isinstance(y, ast.Name) and l2 > L.get(y.id, 0):
+                                    L[y.id], changed = l2, True
+                    elif isinstance(t, ast.Subscript) and lv > 0:
+                        r = t.value
+                        if isinstance(r, ast.Name) and lv + 1 > L.get(r.id, 0):
+                            L[r.id], changed = lv + 1, True
+            elif isinstance(n, ast.NamedExpr) and isinstance(n.target, ast.Name):
+                lv = level(n.value, {})
+                if lv > L.get(n.target.id, 0):
+                    L[n.target.id], changed = lv, True
+            elif isinstance(n, ast.For):
+                changed = bind(n.target, n.iter, {}, L) or changed
+            elif isinstance(n, ast.comprehension):
+                changed = bind(n.target, n.iter, {}, L) or changed  # comprehension variables: by name (they are locals of their own, over-approximated)
+            elif isinstance(n, ast.Call) and isinstance(n.func, ast.Attribute) and n.func.attr in ("append", "add", "setdefault") and n.args and isinstance(n.func.value, ast.Name):
+                lv = level(n.args[-1], {})
+                if lv > 0 and lv + 1 > L.get(n.func.value.id, 0):
+                    L[n.func.value.id], changed = lv + 1, True
+        if not changed:
+            break
+    out: List[Tuple[ast.AST, str]] = []
+    for n in nodes:
+        if isinstance(n, ast.Call) and isinstance(n.func, ast.Attribute) and n.func.attr in _LIST_MUTATORS and level(n.func.value, {}) == 1:
+            out.append((stmt_of(n), _u(n.func.value)))
+        elif isinstance(n, ast.Subscript) and isinstance(n.ctx, (ast.Store, ast.Del)) and level(n.value, {}) == 1:
+            out.append((stmt_of(n), _u(n.value)))
+        elif isinstance(n, ast.AugAssign) and isinstance(n.target, (ast.Name, ast.Subscript)) and isinstance(n.op, (ast.Add, ast.Mult)) and level(n.target, {}) == 1:
+            out.append((n, _u(n.target)))
+        elif isinstance(n, ast.Call) and (dotted_name(n.func) or "").split(".")[-1] in ("shuffle", "heappush", "heappop", "heapify", "insort") and n.args and level(n.args[0], {}) == 1:
+            out.append((stmt_of(n), _u(n.args[0])))
+    seen_ids: Set[int] = set()
+    return [(st, r) for st, r in out if not (id(st) in seen_ids or seen_ids.add(id(st)))]
+
+
+# ---------------------------------------------------------------------------------------------------------
 # D1: an algebra of collections aligned with the keys of the sweep's `sequences` mapping
 # ---------------------------------------------------------------------------------------------------------
 
@@ -2530,6 +2992,22 @@ def run(repo: Repo, R: Report) -> None:
             w_ids = {FP.nid(c) for c in ws}
             ok = FP.nid(lp) not in _reach(FP.g, body_start, w_ids) and not any(isinstance(x, ast.Break) for x in ast.walk(lp))
     R.check(ok, r_p, SWEEP, "_publish_created_context", "every created key is written with set_value", "some <var>_values keys are not written", pc.lineno)
+    # the published list is the swept list: nothing on the way from materialisation to publication modifies it in place
+    r_pi = R.rule("C03-D4-published-sequence-intact", "the list published as <var>_values is the very object that is swept (sequences[var] and created['<var>_values'] share it): step enumeration (broadcast cycling included), the generated bodies and the publication helper only read the variables' lists - none extends, sorts, overwrites or otherwise modifies one in place, so what is published after the loop is the materialised sequence", 5)
+
+    def seeds_param(pname: str):
+        return lambda e: 2 if isinstance(e, ast.Name) and e.id == pname and isinstance(e.ctx, ast.Load) else None
+
+    def seeds_call(e: ast.AST) -> Optional[int]:
+        return 3 if isinstance(e, ast.Call) and (call_name(e) or "").split(".")[-1] == "_materialize_sequences" else None
+
+    handlers = [("_iterate_sweep", F1.fn, seeds_param(seqs)), ("_publish_created_context", FP.fn, seeds_param(cp))] + [(qn, flows[qn][0].fn, seeds_call) for qn, _f in variants]
+    for hqn, hfn, sd in handlers:
+        muts = _list_mutations(hfn, sd)
+        for st, recv in muts:
+            R.violation(r_pi, SWEEP, hqn, _u(st)[:120], f"`{_u(st)[:100]}` modifies `{recv}` - a variable's materialised list, the same object that is published as <var>_values - in place: the published sequence (and what a later from_context sweep reads from it) is no longer the variable's materialised sequence", getattr(st, "lineno", 0))
+        if not muts:
+            R.ok(r_pi, SWEEP, hqn, "the variables' lists are only read")
     r_np = R.rule("C03-D4-node-publication", "a node that publishes the processor's materialised sequences itself writes every (key, sequence) pair of processor._last_created_sequences into the payload's context after process(): the only pair it may skip is the node's own context key, and the only reason not to enter the loop is that nothing was materialised", 4)
     pqn = "_ProbeContextInjectorNode._process_single_item_with_context"
     pn = repo.func(NODES, pqn)
@@ -2869,6 +3347,17 @@ def run(repo: Repo, R: Report) -> None:
     R.check(ok, r_mat, SWEEP, "_materialize_sequences", "from_context: params[spec.key] with missing / non-sequence / empty guards", "a from_context variable is read without its guards (or from another key)", ms.lineno, path)
     ok = bool(lin) and bool(logs) and all(F6.holds_at(c, a_kind("RangeSpec")) for c in lin + logs)
     R.check(ok, r_mat, SWEEP, "_materialize_sequences", "branches on spec.scale and spec.endpoint", "ranges are materialised for a variable that is not a RangeSpec (or scale / endpoint no longer select the materialisation)", ms.lineno)
+
+    # ------------------------------------------------------------------ D6 (the spec classes hold what they were given)
+    def is_spec6(e: ast.AST) -> bool:
+        return (isinstance(e, ast.Name) and e.id == spec) or kmatch(f"{vars_p}[{var}]", e) is not None
+
+    kind_exprs: List[ast.AST] = []
+    for c in ast.walk(F6.fn):
+        m = (kmatch("isinstance(_S_, _K_)", c) or kmatch("type(_S_) is _K_", c) or kmatch("type(_S_) == _K_", c)) if isinstance(c, (ast.Call, ast.Compare)) else None
+        if m and is_spec6(m["_S_"]):
+            kind_exprs += list(m["_K_"].elts) if isinstance(m["_K_"], ast.Tuple) else [m["_K_"]]
+    _spec_fields(repo, R, [(SWEEP, "_materialize_sequences", F6), (PREP, "_convert_var_specs", FY)], is_spec6, kind_exprs)
 
     # ------------------------------------------------------------------ D6 (element-preserving copy)
     r_seq = R.rule("C03-D6-sequence-as-given", "for every variable kind the list that is swept and published is a plain list(<source>) copy - of the np.linspace / np.logspace result, of spec.values, of params[spec.key] - so item i keeps its value, type and position (no array coercion, sort, dedup or mapping), and is not modified in place afterwards", 5)
